@@ -426,6 +426,20 @@ class Interp:
     # ------------------------------------------------------------------ attributes ----------
     def getattr(self, obj, name):
         obj = self.resolve(obj)
+        if isinstance(obj, SuperProxy):
+            inst = obj.obj
+            klass = self.class_of(inst) if isinstance(inst, SObj) else type(inst)
+            mro = list(klass.__mro__)
+            start = mro.index(obj.cls) + 1 if obj.cls in mro else 0
+            for k in mro[start:]:
+                if name in k.__dict__:
+                    raw = k.__dict__[name]
+                    if isinstance(inst, SObj):
+                        if raw is object.__init__:
+                            return BoundModel(lambda interp, recv, *a, **kw: None, inst, "object.__init__")
+                        return self._bind_class_attr(raw, inst, klass)
+                    return raw.__get__(inst, klass) if hasattr(raw, "__get__") else raw
+            raise PyRaise(AttributeError(name))
         if isinstance(obj, SObj):
             if name in obj.fields:
                 return obj.fields[name]
@@ -1310,7 +1324,17 @@ class Interp:
         return self.call(fn, args, kwargs)
 
     def _super(self, env):
-        raise Undecided("super()")
+        """zero-argument super(): uses the __class__ cell of the interpreted method and its first parameter."""
+        try:
+            cls = env.lookup("__class__")
+        except KeyError:
+            raise Undecided("super() outside a method with a __class__ cell")
+        node = self._current_fn_node
+        params = [a.arg for a in node.args.posonlyargs + node.args.args]
+        if not params:
+            raise Undecided("super() in a function without parameters")
+        obj = env.lookup(params[0])
+        return SuperProxy(cls, obj)
 
     def e_Yield(self, node, env):
         v = self.eval(node.value, env) if node.value is not None else None
@@ -1581,6 +1605,12 @@ Interp.run_closure = _run_closure
 
 
 _StopMarker = object()
+
+
+class SuperProxy:
+    def __init__(self, cls, obj):
+        self.cls = cls
+        self.obj = obj
 
 
 class RevSeq(SSeq):
